@@ -49,7 +49,7 @@ def par_marks_ok(ram_text):
             w = WRITE_RE.search(t)
             if w:
                 writes.add(w.group(1))
-            if "GUARDED" in t or t.startswith("ERASE"):
+            if re.search(r"INSERT \(.*\) INTO \S+ IF \(", t) or "GUARDED" in t or t.startswith("ERASE"):   # guarded insert prints as INSERT .. INTO r IF (..)
                 bad.append("PARALLEL over a guarded insert / erase at line %d" % (i + 1))
             j += 1
         if reads & writes:
